@@ -151,7 +151,7 @@ class SamplingBonds:
         self.cls.evaluate_observables = self.orig
 
 
-def run_digital(cap, mode, seed, n=4, depth=6, noisy=False, minb=2):
+def run_digital(cap, mode, seed, n=4, depth=6, noisy=False, minb=2, thr=None):
     from qiskit import QuantumCircuit
 
     from mqt.yaqs import simulator
@@ -172,7 +172,8 @@ def run_digital(cap, mode, seed, n=4, depth=6, noisy=False, minb=2):
             else:
                 getattr(qc, g)(float(rng.uniform(0.5, 2.0)), q, q + 1)
     obs = [Observable("max_bond"), Observable("z", 0)]
-    thr = 1e-9 if mode == "discarded_weight" else 1e-6
+    if thr is None:
+        thr = 1e-9 if mode == "discarded_weight" else 1e-6
     nm = None
     if noisy:
         nm = NoiseModel([{"name": "crosstalk_xx", "sites": [1, 2], "strength": 0.3},
@@ -220,7 +221,7 @@ def run_analog(cap, mode, seed, L=4, order=2, noisy=False, minb=2, bug=False, th
 def whole_run(kind, cap, mode, seed, noisy, minb=2, bug=False, thr=None):
     with common.time_limit(240):
         if kind == "digital":
-            return run_digital(cap, mode, seed, noisy=noisy, minb=minb)
+            return run_digital(cap, mode, seed, noisy=noisy, minb=minb, thr=thr)
         return run_analog(cap, mode, seed, order=2 if bug else 1 + seed % 2, noisy=noisy, minb=minb, bug=bug, thr=thr)
 
 
@@ -235,7 +236,9 @@ def search(ctx):
         for thr in (0.0, 1e-9):
             plan.append(("analog-bug", cap, "discarded_weight", False, thr))
     plan += [("digital", 2, "discarded_weight", True), ("analog", 3, "discarded_weight", True),
-             ("analog", 3, "relative", True), ("digital", 3, "relative", True)]
+             ("analog", 3, "relative", True), ("digital", 3, "relative", True),
+             # noisy runs with threshold 0: the uncapped SVD centre shifts of the dissipation sweep must still drop the null directions
+             ("analog", 3, "discarded_weight", True, 0.0), ("digital", 3, "discarded_weight", True, 0.0), ("analog", 4, "relative", True, 0.0)]
     # product-state bonds with max_bond_dim = min_bond_dim = 1: the SVD-based centre shifts must not pad them
     ones = [("analog", 1, "relative", True), ("digital", 1, "discarded_weight", True), ("analog", 1, "discarded_weight", False)]
     reps = 1 if ctx.quick else 3
